@@ -133,6 +133,8 @@ def arg_term(x):
 
 
 def mk(name, args, shape, dtype, kind="torch", storage=None, real=None):
+    if any(isinstance(a, ATen) and a.kind == "cvxpy" for a in args):
+        kind, real = "cvxpy", None
     term = U(name, ArrS, *[arg_term(a) for a in args])
     return ATen(term, shape, dtype, kind=kind, storage=storage, real=real)
 
@@ -190,7 +192,9 @@ def aten_binop(interp, op, a, b, inplace=False):
         if not isinstance(x, (ATen, int, float, z3.ArithRef, V.Quot)):
             return MISSING
     kind = a.kind if isinstance(a, ATen) else b.kind
-    if isinstance(a, ATen) and isinstance(b, ATen) and a.kind != b.kind:
+    if isinstance(a, ATen) and isinstance(b, ATen) and "cvxpy" in (a.kind, b.kind) and "torch" not in (a.kind, b.kind):
+        kind = "cvxpy"
+    elif isinstance(a, ATen) and isinstance(b, ATen) and a.kind != b.kind:
         # numpy @ torch etc.: a TypeError in the real libraries (the C19 operand-kind obligation)
         cx.oblige("kinds.operands_same_library", False, kind="kinds", site=getattr(interp, "cur_site", None))
         raise SymRaise(ExcValue("TypeError"))
@@ -216,6 +220,8 @@ def aten_binop(interp, op, a, b, inplace=False):
     sa = not isinstance(a, ATen) or a.rank == 0
     sb = not isinstance(b, ATen) or b.rank == 0
     dt = promote(a, b)
+    if kind == "cvxpy" and sa and sb:
+        return mk("cp_" + name, [a, b], [], dt, "cvxpy")
     if sa and sb:
         if (isinstance(a, ATen) and a.boolean) or (isinstance(b, ATen) and b.boolean):
             return mk(name, [a, b], [], dt, kind)
@@ -279,6 +285,11 @@ def aten_compare(interp, op, a, b):
         return MISSING
     sa = not isinstance(a, ATen) or a.rank == 0
     sb = not isinstance(b, ATen) or b.rank == 0
+    if any(isinstance(x, ATen) and x.kind == "cvxpy" for x in (a, b)):
+        t = a if isinstance(a, ATen) else b
+        r = mk("cp_constraint_" + CMP[type(op)], [a, b], bshape(a, b), U("bool_dtype", DtypeS), "cvxpy")
+        r.boolean = True
+        return r
     if sa and sb:
         ia = isinstance(a, ATen) and a.intval is not None or isinstance(a, int) or isinstance(a, z3.ArithRef) and z3.is_int(a)
         ib = isinstance(b, ATen) and b.intval is not None or isinstance(b, int) or isinstance(b, z3.ArithRef) and z3.is_int(b)
